@@ -50,6 +50,7 @@ void Lib::open(const std::string & path)
   f_clrev = (decltype(f_clrev))sym("refclrev_");
   f_getrange = (decltype(f_getrange))sym("refgetrange_");
   f_call = (decltype(f_call))sym("refcall_");
+  f_low = (decltype(f_low))sym("reflow_");
   CbArg a{this, h};
   dl_iterate_phdr(phdr_cb, &a);
   if (segs.empty()) throw std::runtime_error("reference library segments not found");
@@ -68,6 +69,14 @@ int Lib::call(int i2bbs, const std::string & name, int ilevel, int modebb, int i
   int ier = 0;
   f_call(&i2bbs, ichn, &n, &ilevel, &modebb, &istart, &ier);
   return ier;
+}
+bool Lib::call_low(const std::string & routine, int levelkev)
+{
+  int ichn[16]; int n = (int)std::min<size_t>(16, routine.size());
+  for (int i = 0; i < n; i++) ichn[i] = (unsigned char)routine[i];
+  int found = 0;
+  f_low(ichn, &n, &levelkev, &found);
+  return found != 0;
 }
 Event Lib::get_event()
 {
